@@ -44,6 +44,9 @@ class Explorer:
         self.check_ms = check_ms
         self.max_paths = max_paths
         self.float_mode = float_mode
+        self.budget_s = 600.0
+        self.on_fail = None
+        self.stop = False
         self.fallback = fallback  # callable(smt2 text, secs) -> 'unsat'|'sat'|'unknown'
         # DFS state
         self.prefix: list[bool] = []  # decisions to replay
@@ -76,6 +79,13 @@ class Explorer:
         self.model = None
         self.memo = {}  # lru_cache models, per run
         self.check_n = 0
+        self.bv_of = {}
+        self.fmt_rec = {}
+        self.parse_rec = {}
+        self.digit_of = {}
+        self.ascii_chars = set()
+        self.bitf = {}
+        self.bitf_cache = {}
         self.n_paths += 1
 
     def fresh_name(self, base):
@@ -235,8 +245,11 @@ class Explorer:
                 detail = detail or f"z3: {self.solver.reason_unknown()}"
         finally:
             self.solver.pop()
-        self.obligations.append(
-            Obligation(label, st, self.n_paths, time.time() - t0, backend, inputs, detail, site))
+        ob = Obligation(label, st, self.n_paths, time.time() - t0, backend, inputs, detail, site)
+        self.obligations.append(ob)
+        if st == "failed" and self.on_fail is not None and self.on_fail(ob):
+            self.stop = True
+            raise PathAbort("stop: counterexample reproduced")
 
     def cover(self, label):
         """Reachability witness: this program point was reached on a feasible path."""
@@ -279,7 +292,11 @@ class Explorer:
     def explore(self, run_once):
         """run_once() executes the harness once under the current prefix."""
         self.live_from = 0
+        t_start = time.time()
         while True:
+            if time.time() - t_start > self.budget_s:
+                self.ends.append(PathEnd(self.n_paths, "unsupported", f"time budget {self.budget_s}s exceeded after {self.n_paths} paths"))
+                break
             if self.n_paths >= self.max_paths:
                 self.ends.append(PathEnd(self.n_paths, "unsupported", "max_paths exceeded"))
                 break
@@ -294,7 +311,7 @@ class Explorer:
             # truncate the prefix to what this run actually used
             del self.prefix[self.pos:]
             del self.forced[self.pos:]
-            if not self.next_prefix():
+            if self.stop or not self.next_prefix():
                 break
 
 
@@ -304,6 +321,8 @@ def decode_input(model, kind, payload):
 
     if kind == "int":
         return ev(payload).as_long()
+    if kind == "bvint":
+        return ev(payload).as_signed_long()
     if kind == "bool":
         return z3.is_true(ev(payload))
     if kind == "str":
